@@ -84,14 +84,18 @@ pub mod verif_harness {
                 let (g, c, p) = (unhex(f[1]), unhex(f[2]), unhex(f[3]));
                 // the verdict comes from the real entry point alone (a panic propagates => REJECT)
                 verify(&g, &c, &p);
-                // the final state is not returned by verify(): replay the three phases to print it
-                let mut claims: Claims = vec![]; let mut memory: Memory = vec![]; let mut stack: Stack = vec![];
-                execute_instructions(&g, &mut stack, &mut memory, &mut claims, ExecutionPhase::Gamma);
-                stack.clear();
-                execute_instructions(&c, &mut stack, &mut memory, &mut claims, ExecutionPhase::Claim);
-                stack.clear();
-                execute_instructions(&p, &mut stack, &mut memory, &mut claims, ExecutionPhase::Proof);
-                format!("ACCEPT {}", show_state(&stack, &memory, &claims))
+                // the final state is not returned by verify(): replay the three phases (as the documented machine
+                // sequences them) to print it; if that replay diverges from what verify() just did, say so
+                let replay = std::panic::catch_unwind(std::panic::AssertUnwindSafe(|| {
+                    let mut claims: Claims = vec![]; let mut memory: Memory = vec![]; let mut stack: Stack = vec![];
+                    execute_instructions(&g, &mut stack, &mut memory, &mut claims, ExecutionPhase::Gamma);
+                    stack.clear();
+                    execute_instructions(&c, &mut stack, &mut memory, &mut claims, ExecutionPhase::Claim);
+                    stack.clear();
+                    execute_instructions(&p, &mut stack, &mut memory, &mut claims, ExecutionPhase::Proof);
+                    show_state(&stack, &memory, &claims)
+                }));
+                match replay { Ok(st) => format!("ACCEPT {}", st), Err(_) => String::from("ACCEPT <phase-replay-diverged>") }
             }
             "E" => {
                 let b = unhex(f[2]);
